@@ -1,1 +1,468 @@
-/-! # C12 — property theorems (stub) -/
+import Okane.Lemmas.Alias
+/-!
+# C12 — aliases are transparent; alias conflicts are rejected
+
+Theorems about `Okane.Store` (the model of `InternStore`) and `Okane.process` / `Okane.stepEntry`
+(`ProcessAccumulator::process`).  The relations `Store.SameAccount`, `Transaction.Rel`, `EntriesRel`, `SubstEntries`,
+`Declared` are defined in `Okane/Spec/Alias.lean`.
+-/
+namespace Okane
+
+/-! ## C12_resolve -/
+
+/-- **C12_resolve.**  A name registered as an alias of `c` resolves to `c`; `ensure` returns `c` and creates no record
+(the store is returned unchanged).  The same holds for a registered canonical name. -/
+theorem C12_resolve (s : Store) (a c : String) (h : AMap.get? s.recs a = some (some c)) :
+    s.resolve a = some c ∧ s.ensure a = (c, s) := by
+  have hr : s.resolve a = some c := by simp [Store.resolve, h]
+  exact ⟨hr, Store.ensure_of_resolve hr⟩
+
+theorem C12_resolve_canonical (s : Store) (c : String) (h : AMap.get? s.recs c = some none) :
+    s.resolve c = some c ∧ s.ensure c = (c, s) := by
+  have hr : s.resolve c = some c := by simp [Store.resolve, h]
+  exact ⟨hr, Store.ensure_of_resolve hr⟩
+
+/-- an alias and its canonical name are interned to the very same result. -/
+theorem C12_resolve_same (s : Store) (a c : String) (ha : AMap.get? s.recs a = some (some c))
+    (hc : AMap.get? s.recs c = some none) : s.ensure a = s.ensure c := by
+  rw [(C12_resolve s a c ha).2, (C12_resolve_canonical s c hc).2]
+
+/-! ## C12_step / C12_transparent -/
+
+/-- **C12_step.**  Respelling account and commodity names of a transaction through names the current context resolves
+to the same canonical (at any subset of the occurrences: posting accounts, amounts, costs, lot prices, balance
+assertions) does not change the result of processing the entry — new state, error, everything. -/
+theorem C12_step (st : ProcState) (e e' : Entry) (h : Entry.RelCtx st.ctx e e') : stepEntry st e' = stepEntry st e := by
+  cases e with
+  | txn t =>
+    cases e' with
+    | txn t' =>
+      have := (addTransactionSyntax_rel (c := st.ctx) st.bal (show Transaction.Rel _ _ t t' from h)).1
+      simp only [stepEntry, this]
+    | _ => simp [Entry.RelCtx, Entry.Rel] at h
+  | _ => simp only [Entry.RelCtx, Entry.Rel] at h; rw [← h]
+
+/-- **C12_transparent (semantic form).**  Two ledgers that agree entry by entry up to respelling of names through what
+the context knows at that point of the run give the same `process` result: same error at the same entry, or the same
+transactions, balances, price events and context (hence the same balance and register reports). -/
+theorem C12_transparent : ∀ (es es' : List Entry) (st : ProcState) (i : Nat), EntriesRel st es es' →
+    processFrom st i es' = processFrom st i es
+  | [], [], _, _, _ => rfl
+  | [], _ :: _, _, _, h => by simp [EntriesRel] at h
+  | _ :: _, [], _, _, h => by simp [EntriesRel] at h
+  | e :: es, e' :: es', st, i, h => by
+    simp only [EntriesRel] at h
+    simp only [processFrom, C12_step st e e' h.1]
+    cases hs : stepEntry st e with
+    | ok st1 => exact C12_transparent es es' st1 (i + 1) (h.2 st1 hs)
+    | err x => rfl
+    | panic q => rfl
+    | fuelOut => rfl
+
+theorem declared_mono {c c' : Ctx} {σ : AliasTable} (h : Declared c σ) (hle : c.le c') : Declared c' σ :=
+  ⟨fun a k hm => ⟨hle.1 _ _ (h.1 a k hm).1, hle.1 _ _ (h.1 a k hm).2⟩,
+   fun a k hm => ⟨hle.2 _ _ (h.2 a k hm).1, hle.2 _ _ (h.2 a k hm).2.1, (h.2 a k hm).2.2⟩⟩
+
+theorem subst_sameAccount {c : Ctx} {σ : AliasTable} (h : Declared c σ) (x y : String)
+    (hs : AliasTable.subst σ.accounts x y) : c.accounts.SameAccount x y := by
+  rcases hs with rfl | hm
+  · exact Or.inl rfl
+  · have := h.1 y x hm
+    exact Or.inr ⟨x, by simp [Store.resolve, this.2], by simp [Store.resolve, this.1]⟩
+
+theorem subst_sameCommodity {c : Ctx} {σ : AliasTable} (h : Declared c σ) (x y : String)
+    (hs : AliasTable.subst σ.commodities x y) : c.commodities.SameCommodity x y := by
+  rcases hs with rfl | hm
+  · exact Or.inl rfl
+  · have := h.2 y x hm
+    exact Or.inr ⟨this.2.2.2, this.2.2.1, x, by simp [Store.resolve, this.2.1], by simp [Store.resolve, this.1]⟩
+
+/-- **C12_transparent (alias-table form).**  If every pair of the table is registered in the current context, replacing
+canonical names by their aliases at any subset of the occurrences in the remaining entries changes nothing. -/
+theorem C12_transparent_declared (σ : AliasTable) : ∀ (es es' : List Entry) (st : ProcState) (i : Nat),
+    Declared st.ctx σ → SubstEntries σ es es' → processFrom st i es' = processFrom st i es
+  | [], [], _, _, _, _ => rfl
+  | [], _ :: _, _, _, _, h => by simp [SubstEntries, listRel] at h
+  | _ :: _, [], _, _, _, h => by simp [SubstEntries, listRel] at h
+  | e :: es, e' :: es', st, i, hd, h => by
+    simp only [SubstEntries, listRel] at h
+    have hrel : Entry.RelCtx st.ctx e e' := Entry.rel_mono (subst_sameAccount hd) (subst_sameCommodity hd) e e' h.1
+    simp only [processFrom, C12_step st e e' hrel]
+    cases hs : stepEntry st e with
+    | ok st1 => exact C12_transparent_declared σ es es' st1 (i + 1) (declared_mono hd (stepEntry_le hs)) h.2
+    | err x => rfl
+    | panic q => rfl
+    | fuelOut => rfl
+
+theorem processFrom_le : ∀ (es : List Entry) (st st' : ProcState) (i : Nat), processFrom st i es = .ok st' →
+    st.ctx.le st'.ctx
+  | [], st, st', i, h => by simp [processFrom] at h; rw [← h]; exact Ctx.le_refl _
+  | e :: es, st, st', i, h => by
+    simp only [processFrom] at h
+    cases hs : stepEntry st e with
+    | ok st1 => simp only [hs] at h; exact Ctx.le_trans (stepEntry_le hs) (processFrom_le es st1 st' (i + 1) h)
+    | err x => simp [hs] at h
+    | panic q => simp [hs] at h
+    | fuelOut => simp [hs] at h
+
+/-- an accepted `account k` declaration with sub-directive `alias a` leaves `a ↦ k` and `k` canonical in the store. -/
+theorem account_decl_registers {st st' : ProcState} {k : String} {ds : List AccountDetail}
+    (h : stepEntry st (.account k ds) = .ok st') (a : String) (ha : a ∈ accountAliases ds) :
+    AMap.get? st'.ctx.accounts.recs a = some (some k) ∧ AMap.get? st'.ctx.accounts.recs k = some none := by
+  simp only [stepEntry] at h
+  cases hc : st.ctx.accounts.insertCanonical k with
+  | ok r =>
+    obtain ⟨k', s1⟩ := r
+    have h1 := Store.insertCanonical_ok hc
+    obtain ⟨hle1, rfl, hk⟩ := h1
+    simp only [hc] at h
+    split at h
+    next s2 hi =>
+      simp at h
+      rw [← h]
+      have h2 := insertAliases_ok _ _ _ _ hi
+      exact ⟨h2.2 a ha, h2.1 _ _ hk⟩
+    · simp at h
+    · simp at h
+    · simp at h
+  | err x => simp [hc] at h
+  | panic q => simp [hc] at h
+  | fuelOut => simp [hc] at h
+
+theorem commodity_decl_registers {st st' : ProcState} {k : String} {ds : List CommodityDetail}
+    (h : stepEntry st (.commodity k ds) = .ok st') (a : String) (ha : a ∈ commodityAliases ds) :
+    AMap.get? st'.ctx.commodities.recs a = some (some k) ∧ AMap.get? st'.ctx.commodities.recs k = some none := by
+  simp only [stepEntry] at h
+  cases hc : st.ctx.commodities.insertCanonical k with
+  | ok r =>
+    obtain ⟨k', s1⟩ := r
+    obtain ⟨hle1, rfl, hk⟩ := Store.insertCanonical_ok hc
+    simp only [hc] at h
+    cases hi : applyCommodityDetails { st.ctx with commodities := s1 } k' ds with
+    | ok c' =>
+      simp [hi] at h
+      rw [← h]
+      have h2 := applyCommodityDetails_ok _ _ _ _ hi
+      exact ⟨h2.2 a ha, h2.1.2 _ _ hk⟩
+    | err x => simp [hi] at h
+    | panic q => simp [hi] at h
+    | fuelOut => simp [hi] at h
+  | err x => simp [hc] at h
+  | panic q => simp [hc] at h
+  | fuelOut => simp [hc] at h
+
+theorem declared_after : ∀ (pre : List Entry) (st0 st : ProcState) (i : Nat), processFrom st0 i pre = .ok st →
+    (∀ a k, DeclaresAccount pre a k →
+      AMap.get? st.ctx.accounts.recs a = some (some k) ∧ AMap.get? st.ctx.accounts.recs k = some none) ∧
+    (∀ a k, DeclaresCommodity pre a k →
+      AMap.get? st.ctx.commodities.recs a = some (some k) ∧ AMap.get? st.ctx.commodities.recs k = some none)
+  | [], _, _, _, _ => ⟨fun a k ⟨_, hm, _⟩ => by simp at hm, fun a k ⟨_, hm, _⟩ => by simp at hm⟩
+  | e :: pre, st0, st, i, h => by
+    simp only [processFrom] at h
+    cases hs : stepEntry st0 e with
+    | ok st1 =>
+      simp only [hs] at h
+      have ih := declared_after pre st1 st (i + 1) h
+      have hle := processFrom_le pre st1 st (i + 1) h
+      refine ⟨?_, ?_⟩
+      · intro a k ⟨ds, hm, ha⟩
+        rcases List.mem_cons.1 hm with heq | hm
+        · subst heq
+          have := account_decl_registers hs a ha
+          exact ⟨hle.1 _ _ this.1, hle.1 _ _ this.2⟩
+        · exact ih.1 a k ⟨ds, hm, ha⟩
+      · intro a k ⟨ds, hm, ha⟩
+        rcases List.mem_cons.1 hm with heq | hm
+        · subst heq
+          have := commodity_decl_registers hs a ha
+          exact ⟨hle.2 _ _ this.1, hle.2 _ _ this.2⟩
+        · exact ih.2 a k ⟨ds, hm, ha⟩
+    | err x => simp [hs] at h
+    | panic q => simp [hs] at h
+    | fuelOut => simp [hs] at h
+
+/-- **C12_transparent (the statement of the property).**  Let the first part `pre` of a ledger contain, for every pair
+`(a, k)` of the table, a declaration `account k` (resp. `commodity k`) with a sub-directive `alias a`.  Writing such an
+alias instead of the canonical name at ANY subset of the occurrences in the transactions after `pre` (posting accounts,
+amounts, costs, lot prices, balance assertions) leaves the result of `process` unchanged — whether the ledger is accepted
+(same transactions, balances, register) or rejected (same error at the same entry). -/
+theorem C12_transparent_decl (σ : AliasTable) (pre es es' : List Entry)
+    (hacc : ∀ a k, (a, k) ∈ σ.accounts → DeclaresAccount pre a k)
+    (hcom : ∀ a k, (a, k) ∈ σ.commodities → DeclaresCommodity pre a k ∧ a.isEmpty = false ∧ k.isEmpty = false)
+    (hsub : SubstEntries σ es es') : process (pre ++ es') = process (pre ++ es) := by
+  unfold process
+  rw [processFrom_append, processFrom_append]
+  cases hp : processFrom {} 0 pre with
+  | ok st =>
+    have hd := declared_after pre {} st 0 hp
+    have hdecl : Declared st.ctx σ :=
+      ⟨fun a k hm => hd.1 a k (hacc a k hm),
+       fun a k hm => ⟨(hd.2 a k (hcom a k hm).1).1, (hd.2 a k (hcom a k hm).1).2, (hcom a k hm).2.1, (hcom a k hm).2.2⟩⟩
+    exact C12_transparent_declared σ es es' st _ hdecl hsub
+  | err x => rfl
+  | panic q => rfl
+  | fuelOut => rfl
+
+/-! ## C12_conflict -/
+
+/-- **C12_conflict (store).**  Declaring as an alias a name that is a canonical name, declaring as canonical a name that is
+an alias, and declaring an alias for a second canonical name are all errors; the store is not changed (no `ok` result). -/
+theorem C12_conflict (s : Store) (x k k' : String) :
+    (AMap.get? s.recs x = some none → s.insertAlias x k = .err .alreadyCanonical) ∧
+    (AMap.get? s.recs x = some (some k) → s.insertCanonical x = .err .alreadyAlias) ∧
+    (AMap.get? s.recs x = some (some k) → k ≠ k' → s.insertAlias x k' = .err .aliasConflict) := by
+  refine ⟨fun h => by simp [Store.insertAlias, h], fun h => by simp [Store.insertCanonical, h], fun h hne => ?_⟩
+  simp [Store.insertAlias, h, hne]
+
+/-- a name "in use": written earlier as an account (it was interned by `ensure`, so it is canonical or an alias). -/
+theorem insertAliases_conflict : ∀ (as : List String) (s : Store) (k : String),
+    (∃ a ∈ as, AMap.get? s.recs a = some none ∨ ∃ f, AMap.get? s.recs a = some (some f) ∧ f ≠ k) →
+    ∃ e, insertAliases s k as = .err e
+  | [], _, _, ⟨_, hm, _⟩ => by simp at hm
+  | b :: as, s, k, ⟨a, hm, hc⟩ => by
+    simp only [insertAliases]
+    cases hb : s.insertAlias b k with
+    | ok s1 =>
+      simp only
+      have hle := (Store.insertAlias_ok hb).1
+      rcases List.mem_cons.1 hm with rfl | hm
+      · -- the conflicting alias is the first one: it cannot have succeeded
+        rcases hc with hc | ⟨f, hc, hne⟩
+        · simp [Store.insertAlias, hc] at hb
+        · simp [Store.insertAlias, hc, hne] at hb
+      · refine insertAliases_conflict as s1 k ⟨a, hm, ?_⟩
+        rcases hc with hc | ⟨f, hc, hne⟩
+        · exact Or.inl (hle _ _ hc)
+        · exact Or.inr ⟨f, hle _ _ hc, hne⟩
+    | err e => exact ⟨e, rfl⟩
+    | panic q =>
+      unfold Store.insertAlias at hb
+      split at hb <;> (try split at hb) <;> simp at hb
+    | fuelOut =>
+      unfold Store.insertAlias at hb
+      split at hb <;> (try split at hb) <;> simp at hb
+
+/-- **C12_conflict (process).**  An `account` declaration is rejected, and `process` fails at exactly that entry with
+`InvalidAccount`, when its name is already an alias, or one of its aliases is already a canonical name (declared, or
+simply used before: see `C12_use_makes_canonical`) or an alias of another account. -/
+theorem C12_conflict_process (st : ProcState) (i : Nat) (k : String) (ds : List AccountDetail) (rest : List Entry)
+    (h : (∃ c, AMap.get? st.ctx.accounts.recs k = some (some c)) ∨
+         (∃ a ∈ accountAliases ds, a ≠ k ∧ (AMap.get? st.ctx.accounts.recs a = some none ∨
+            ∃ f, AMap.get? st.ctx.accounts.recs a = some (some f) ∧ f ≠ k)) ∨
+         k ∈ accountAliases ds) :
+    processFrom st i (.account k ds :: rest) = .err (i, .invalidAccount) := by
+  have hstep : stepEntry st (.account k ds) = .err .invalidAccount := by
+    simp only [stepEntry]
+    rcases h with ⟨c, hc⟩ | h
+    · simp [Store.insertCanonical, hc]
+    · cases hins : st.ctx.accounts.insertCanonical k with
+      | ok r =>
+        obtain ⟨k', s1⟩ := r
+        obtain ⟨hle, rfl, hk⟩ := Store.insertCanonical_ok hins
+        have hex : ∃ a ∈ accountAliases ds, AMap.get? s1.recs a = some none ∨ ∃ f, AMap.get? s1.recs a = some (some f) ∧ f ≠ k' := by
+          rcases h with ⟨a, ha, _, hc⟩ | hself
+          · refine ⟨a, ha, ?_⟩
+            rcases hc with hc | ⟨f, hc, hne⟩
+            · exact Or.inl (hle _ _ hc)
+            · exact Or.inr ⟨f, hle _ _ hc, hne⟩
+          · exact ⟨k', hself, Or.inl hk⟩
+        obtain ⟨e, he⟩ := insertAliases_conflict _ s1 k' hex
+        dsimp only
+        split
+        · next s2 hi => exact absurd (hi.symm.trans he) (by simp)
+        · rfl
+        · next q hi => exact absurd (hi.symm.trans he) (by simp)
+        · next hi => exact absurd (hi.symm.trans he) (by simp)
+      | err e => rfl
+      | panic q =>
+        unfold Store.insertCanonical at hins
+        split at hins <;> simp at hins
+      | fuelOut =>
+        unfold Store.insertCanonical at hins
+        split at hins <;> simp at hins
+  simp [processFrom, hstep]
+
+/-- the same for commodities: the canonical name is already an alias. -/
+theorem C12_conflict_commodity (st : ProcState) (i : Nat) (k c : String) (ds : List CommodityDetail) (rest : List Entry)
+    (h : AMap.get? st.ctx.commodities.recs k = some (some c)) :
+    processFrom st i (.commodity k ds :: rest) = .err (i, .invalidCommodity) := by
+  simp [processFrom, stepEntry, Store.insertCanonical, h]
+
+/-- … or an alias of the declaration is a canonical commodity / an alias of another commodity (first sub-directive). -/
+theorem C12_conflict_commodity_alias (st : ProcState) (i : Nat) (k a : String) (ds : List CommodityDetail) (rest : List Entry)
+    (hk : AMap.get? st.ctx.commodities.recs k = some none)
+    (ha : AMap.get? st.ctx.commodities.recs a = some none ∨ ∃ f, AMap.get? st.ctx.commodities.recs a = some (some f) ∧ f ≠ k) :
+    processFrom st i (.commodity k (.alias a :: ds) :: rest) = .err (i, .invalidCommodity) := by
+  rcases ha with ha | ⟨f, ha, hne⟩
+  · simp [processFrom, stepEntry, Store.insertCanonical, hk, applyCommodityDetails, Store.insertAlias, ha]
+  · simp [processFrom, stepEntry, Store.insertCanonical, hk, applyCommodityDetails, Store.insertAlias, ha, hne]
+
+/-- every account written in an accepted transaction is registered afterwards; if it was unknown before, it has become a
+canonical name — so that declaring it as an alias later is rejected (`C12_conflict_process`): use-before-declare. -/
+theorem ensure_registers (s : Store) (x : String) :
+    (s.resolve x = none → AMap.get? (s.ensure x).2.recs x = some none) ∧ ((s.ensure x).2.resolve x).isSome = true := by
+  constructor
+  · intro h
+    simp [Store.ensure, h, AMap.get?_insert_self]
+  · cases h : s.resolve x with
+    | none =>
+      have : (s.ensure x).2 = ⟨AMap.insert s.recs x none⟩ := by simp [Store.ensure, h]
+      rw [this]
+      simp [Store.resolve, AMap.get?_insert_self]
+    | some c => simp [Store.ensure, h]
+
+theorem resolvePosting_registers {c c' : Ctx} {p : Posting} {rp : RPosting String String}
+    (h : resolvePosting c p = .ok (rp, c')) :
+    (c.accounts.resolve p.account = none → AMap.get? c'.accounts.recs p.account = some none) ∧
+    c'.accounts = (c.accounts.ensure p.account).2 := by
+  have hacc : c'.accounts = (c.accounts.ensure p.account).2 := by
+    unfold resolvePosting at h
+    simp only at h
+    split at h
+    · split at h <;> simp at h
+      rw [← h.2]
+    · split at h
+      · split at h <;> simp at h
+        rw [← h.2]
+      · simp at h
+      · simp at h
+      · simp at h
+  exact ⟨fun hn => by rw [hacc]; exact (ensure_registers c.accounts p.account).1 hn, hacc⟩
+
+theorem loopSyntax_registers (date : Date) : ∀ (ps : List Posting) (c c' : Ctx) (st st' : TxnState String String) (idx : Nat),
+    loopSyntax date c st idx ps = .ok (c', st') → ∀ p ∈ ps, (c'.accounts.resolve p.account).isSome = true ∧
+      (c.accounts.resolve p.account = none → AMap.get? c'.accounts.recs p.account = some none)
+  | [], _, _, _, _, _, _ => by simp
+  | q :: ps, c, c', st, st', idx, h => by
+    simp only [loopSyntax] at h
+    cases hr : resolvePosting c q with
+    | ok r =>
+      obtain ⟨rp, c1⟩ := r
+      simp only [hr] at h
+      cases hs : stepPosting date st idx rp with
+      | ok st1 =>
+        simp only [hs] at h
+        have ih := loopSyntax_registers date ps c1 c' st1 st' (idx + 1) h
+        have hle : c1.le c' := (loopSyntax_rel c1 date ps ps c1 st1 (idx + 1)
+          (listRel_refl (Posting.rel_refl (fun _ => Or.inl rfl) (fun _ => Or.inl rfl)) ps) (Ctx.le_refl c1)).2 c' st' h
+        have hq := resolvePosting_registers hr
+        have hcle : c.accounts.le c1.accounts := by rw [hq.2]; exact Store.ensure_le _ _
+        intro p hp
+        rcases List.mem_cons.1 hp with rfl | hp
+        · have hsome : (c1.accounts.resolve p.account).isSome = true := by
+            rw [hq.2]; exact (ensure_registers c.accounts p.account).2
+          refine ⟨?_, fun hn => hle.1 _ _ (hq.1 hn)⟩
+          cases hres : c1.accounts.resolve p.account with
+          | none => simp [hres] at hsome
+          | some k => simp [Store.resolve_of_le hle.1 hres]
+        · refine ⟨(ih p hp).1, fun hn => ?_⟩
+          by_cases h1 : c1.accounts.resolve p.account = none
+          · exact (ih p hp).2 h1
+          · -- registered by the first posting already: then it is the first posting's account, made canonical there
+            by_cases hsame : p.account = q.account
+            · rw [hsame] at hn ⊢; exact hle.1 _ _ (hq.1 hn)
+            · exfalso
+              apply h1
+              rw [hq.2]
+              simp only [Store.ensure]
+              cases hqr : c.accounts.resolve q.account with
+              | some k => simpa using hn
+              | none =>
+                simp only [Store.resolve]
+                rw [AMap.get?_insert_ne _ _ (Ne.symm hsame)]
+                exact (by simpa [Store.resolve] using hn)
+      | err x => simp [hs] at h
+      | panic s => simp [hs] at h
+      | fuelOut => simp [hs] at h
+    | err x => simp [hr] at h
+    | panic s => simp [hr] at h
+    | fuelOut => simp [hr] at h
+
+/-- **C12_use_makes_canonical.**  After an accepted transaction every posting account is registered; one that was unknown
+before is now canonical, hence (by `C12_conflict_process`) can no longer be declared an alias. -/
+theorem C12_use_makes_canonical (st st' : ProcState) (t : Transaction) (h : stepEntry st (.txn t) = .ok st')
+    (p : Posting) (hp : p ∈ t.posts) (hnew : st.ctx.accounts.resolve p.account = none) :
+    AMap.get? st'.ctx.accounts.recs p.account = some none := by
+  simp only [stepEntry] at h
+  cases ha : addTransactionSyntax st.ctx st.bal t with
+  | ok r =>
+    obtain ⟨c', rr⟩ := r
+    simp [ha] at h
+    rw [← h]
+    unfold addTransactionSyntax at ha
+    split at ha
+    next c1 st1 hl =>
+      have := (loopSyntax_registers t.date t.posts st.ctx c1 _ st1 0 hl p hp).2 hnew
+      split at ha <;> simp at ha
+      rw [← ha.1]; exact this
+    · simp at ha
+    · simp at ha
+    · simp at ha
+  | err x => simp [ha] at h
+  | panic q => simp [ha] at h
+  | fuelOut => simp [ha] at h
+
+theorem C12_use_before_declare (st st' : ProcState) (t : Transaction) (h : stepEntry st (.txn t) = .ok st')
+    (p : Posting) (hp : p ∈ t.posts) (hnew : st.ctx.accounts.resolve p.account = none) (i : Nat) (k : String)
+    (ds : List AccountDetail) (hds : p.account ∈ accountAliases ds) (rest : List Entry) :
+    processFrom st' i (.account k ds :: rest) = .err (i, .invalidAccount) := by
+  have hc := C12_use_makes_canonical st st' t h p hp hnew
+  by_cases hk : p.account = k
+  · exact C12_conflict_process st' i k ds rest (Or.inr (Or.inr (hk ▸ hds)))
+  · exact C12_conflict_process st' i k ds rest (Or.inr (Or.inl ⟨p.account, hds, hk, Or.inl hc⟩))
+
+/-! ## non-vacuity -/
+
+section examples
+private def usd (n : Nat) (neg : Bool) (c : String) : VExpr := .amt ⟨neg, n, 0, none⟩ c
+private def post (a : String) (n : Nat) (neg : Bool) (c : String) : Posting :=
+  { account := a, amount := some { amount := usd n neg c } }
+private def postAssert (a : String) (n : Nat) (c : String) (bal : Nat) (c' : String) : Posting :=
+  { account := a, amount := some { amount := usd n false c, cost := none }, balance := some (usd bal false c') }
+private def day (d : Nat) : Date := ⟨2024, 1, d⟩
+
+/-- `account Assets:Bank / alias bank`, `commodity USD / alias US$`, then two transactions with canonical names. -/
+private def exPre : List Entry :=
+  [.account "Assets:Bank" [.note "n", .alias "bank", .alias "B"], .commodity "USD" [.alias "US$"]]
+private def exPost : List Entry :=
+  [.txn { date := day 1, posts := [postAssert "Assets:Bank" 10 "USD" 10 "USD", post "Income" 10 true "USD"] },
+   .txn { date := day 2, posts := [postAssert "Assets:Bank" 5 "USD" 15 "USD", { account := "Income" }] }]
+/-- the same with aliases at some of the occurrences (account, amount commodity, assertion commodity). -/
+private def exPost' : List Entry :=
+  [.txn { date := day 1, posts := [postAssert "bank" 10 "US$" 10 "USD", post "Income" 10 true "US$"] },
+   .txn { date := day 2, posts := [postAssert "B" 5 "USD" 15 "US$", { account := "Income" }] }]
+private def exσ : AliasTable :=
+  { accounts := [("bank", "Assets:Bank"), ("B", "Assets:Bank")], commodities := [("US$", "USD")] }
+
+-- hypotheses of C12_transparent_decl hold for a ledger that is accepted and books two transactions
+example : SubstEntries exσ exPost exPost' := by
+  simp [SubstEntries, listRel, exPost, exPost', Entry.Rel, Transaction.Rel, Posting.Rel, PostingAmount.Rel, optRel,
+    VExpr.Rel, AliasTable.subst, exσ, postAssert, post, usd]
+example : DeclaresAccount exPre "bank" "Assets:Bank" ∧ DeclaresAccount exPre "B" "Assets:Bank" ∧
+    DeclaresCommodity exPre "US$" "USD" :=
+  ⟨⟨_, List.mem_cons_self, by simp [accountAliases]⟩, ⟨_, List.mem_cons_self, by simp [accountAliases]⟩,
+   ⟨_, List.mem_cons_of_mem _ List.mem_cons_self, by simp [commodityAliases]⟩⟩
+private def okWith (r : Outcome (Nat × BkErrS) ProcState) (f : ProcState → Bool) : Bool :=
+  match r with
+  | .ok st => f st
+  | _ => false
+example : okWith (process (exPre ++ exPost')) (fun st =>
+    st.txns.length == 2 && st.bal.map (·.1) == ["Assets:Bank", "Income"] &&
+      Balance.get st.bal "Assets:Bank" == [("USD", (15 : Rat))]) = true := by decide +kernel
+-- negative: an assertion that is wrong is rejected whatever the spelling
+example : (process (exPre ++ [.txn { date := day 1, posts := [postAssert "bank" 10 "US$" 11 "USD", post "Income" 10 true "USD"] }])).isErr = true := by
+  decide +kernel
+-- C12_conflict: alias of a canonical name; canonical name that is an alias; alias of two accounts (F21); use before declare
+example : (process [.account "A" [], .account "B" [.alias "A"]]).isErr = true ∧
+    (process [.account "A" [.alias "X"], .account "X" []]).isErr = true ∧
+    (process [.account "A" [.alias "X"], .account "B" [.alias "X"]]).isErr = true ∧
+    (process [.account "A" [.alias "X"], .account "A" [.alias "X"]]).isOk = true ∧
+    (process [.txn { date := day 1, posts := [post "X" 1 false "USD", { account := "Y" }] }, .account "A" [.alias "X"]]).isErr = true ∧
+    (process [.commodity "USD" [.alias "D"], .commodity "EUR" [.alias "D"]]).isErr = true := by decide +kernel
+-- C12_resolve on a concrete store
+example : (Store.mk [("A", none), ("X", some "A")]).ensure "X" = ("A", Store.mk [("A", none), ("X", some "A")]) ∧
+    (Store.mk [("A", none), ("X", some "A")]).resolve "X" = some "A" :=
+  C12_resolve _ "X" "A" (by decide +kernel) |>.symm
+end examples
+
+end Okane
